@@ -22,6 +22,11 @@ STAGES = ['banner', 'ehlo', 'helo', 'starttls', 'auth', 'mail', 'rcpt0', 'rcpt1'
 OUTCOMES = ['250', '450', '550', 'bad', 'bad000', 'close', 'stall', '421', '500']
 
 
+def overlap_ok(case):
+    """Cases the campaign runner may run at the same time as another one: those that patch nothing global (the MX cases stub the resolver)."""
+    return case.get('kind') == 'smtp'
+
+
 def cases(tier, seed, phase):
     for lmtp in (False, True):
         for pipelining in (True, False):
@@ -100,11 +105,16 @@ def cases(tier, seed, phase):
             for attempts in (0, 1, 2, 3):
                 for domain in ((True, False) if attempts == 0 else (True,)):
                     yield {'kind': 'mx', 'mx': mx, 'a': a, 'attempts': attempts, 'domain': domain}
+                    if domain and attempts <= 1:
+                        # the same relay object had a resolver failure just before / gets a second attempt while the lookup is in flight
+                        yield {'kind': 'mx', 'mx': mx, 'a': a, 'attempts': attempts, 'domain': domain, 'first_error': True}
+                        yield {'kind': 'mx', 'mx': mx, 'a': a, 'attempts': attempts, 'domain': domain, 'concurrent': True}
     for j in range(300 if tier == 'quick' else 5000):
         rng = rng_for(seed, 'c11mx', j)
         mx = [[rng.choice([0, 5, 10, 10, 20, 50]), h + 1] for h in range(rng.randint(1, 6))]
         rng.shuffle(mx)
-        yield {'kind': 'mx', 'mx': mx, 'a': rng.choice([1, 'nodata']), 'attempts': rng.randrange(12), 'domain': True}
+        yield {'kind': 'mx', 'mx': mx, 'a': rng.choice([1, 'nodata']), 'attempts': rng.randrange(12), 'domain': True,
+               'first_error': j % 3 == 1, 'concurrent': j % 3 == 2}
 
 
 def classify(value):
@@ -165,15 +175,13 @@ def make_env(nr, body8bit=False, utf8addr=None, dupaddr=False):
     return env
 
 
-MAILS = {'n': 0}      # MAIL commands seen by all peers of the current case (a second message may come over a new connection)
-
-
 class Peer(object):
     """Scripted SMTP/LMTP server on one end of a socketpair."""
 
-    def __init__(self, sock, case):
+    def __init__(self, sock, case, shared=None):
         self.sock = sock
         self.case = case
+        self.shared = shared if shared is not None else {'n': 0}     # MAIL commands seen by all peers of this case
         self.dev = dict(case['dev'])
         self.cmdlog = []      # (command kind, [what the script answered]) in arrival order: mail / rcpt / data / body / empty / rset
         self.log = []
@@ -252,8 +260,8 @@ class Peer(object):
                 if not self.answer('auth', '235'):
                     return
             elif cmd == b'MAIL':
-                MAILS['n'] += 1
-                if MAILS['n'] >= 2 and 'second' in self.case:
+                self.shared['n'] += 1
+                if self.shared['n'] >= 2 and 'second' in self.case:
                     self.dev = dict(self.case['second'])
                 self.nrcpt = 0
                 self.accepted = 0
@@ -329,7 +337,7 @@ def run_smtp(case, model):
     from slimta.relay.smtp.static import StaticSmtpRelay, StaticLmtpRelay
     from email.encoders import encode_base64
     peers = []
-    MAILS['n'] = 0
+    shared = {'n': 0}
 
     def creator(address):
         c = case.get('connect', 'ok')
@@ -338,7 +346,7 @@ def run_smtp(case, model):
         if c == 'timeout':
             gevent.sleep(30)
         a, b = gsocket.socketpair()
-        p = Peer(b, case)
+        p = Peer(b, case, shared)
         peers.append((p, gevent.spawn(p.run)))
         return a
     kw = dict(socket_creator=creator, ehlo_as='relay.example', connect_timeout=0.15, command_timeout=0.2, data_timeout=0.2,
@@ -582,15 +590,26 @@ def run_mx(case, model):
             self.priority = pref
     ERR = {'nodata': pycares.errno.ARES_ENODATA, 'notfound': pycares.errno.ARES_ENOTFOUND, 'error': pycares.errno.ARES_ESERVFAIL}
 
+    phase = {'fail_first': bool(case.get('first_error'))}
+
     def fake_query(name, query_type):
         res = gevent.event.AsyncResult()
         ans = case['mx'] if query_type == 'MX' else case['a']
+        if phase['fail_first']:
+            ans = 'error'          # the resolver is down during the first attempt
         if isinstance(ans, str):
-            res.set_exception(DNSError(ERR[ans]))
+            val, exc = None, DNSError(ERR[ans])
         elif query_type == 'MX':
-            res.set([Rec('mx%d.example' % h, p) for p, h in ans])
+            val, exc = [Rec('mx%d.example' % h, p) for p, h in ans], None
         else:
-            res.set([Rec('10.0.0.%d' % i) for i in range(ans)])
+            val, exc = [Rec('10.0.0.%d' % i) for i in range(ans)], None
+        if case.get('concurrent'):
+            # the answer takes a moment: another attempt for the same domain arrives meanwhile
+            gevent.spawn_later(0.01, (lambda: res.set_exception(exc)) if exc is not None else (lambda: res.set(val)))
+        elif exc is not None:
+            res.set_exception(exc)
+        else:
+            res.set(val)
         return res
     mxmod.DNSResolver.query = staticmethod(fake_query)
     chosen = []
@@ -612,20 +631,32 @@ def run_mx(case, model):
         env.parse(b'Subject: x\r\n\r\nbody\r\n')
         box = {}
 
-        def go():
+        def go(key='r'):
             from slimta.relay import PermanentRelayError, TransientRelayError
             try:
                 relay.attempt(env, case['attempts'])
-                box['r'] = 'ok'
+                box[key] = 'ok'
             except PermanentRelayError:
-                box['r'] = 'perm'
+                box[key] = 'perm'
             except TransientRelayError:
-                box['r'] = 'temp'
+                box[key] = 'temp'
             except BaseException as e:
-                box['r'] = 'other:' + type(e).__name__
+                box[key] = 'other:' + type(e).__name__
+        first = None
+        if phase['fail_first'] and case['domain']:
+            g0 = gevent.spawn(go, 'first')
+            g0.join(3)
+            first = box.get('first', 'hung')
+        phase['fail_first'] = False
+        del chosen[:]
         g = gevent.spawn(go)
+        g2 = gevent.spawn(go, 'r2') if case.get('concurrent') else None
         g.join(3)
         res = box.get('r', 'hung')
+        res2 = None
+        if g2 is not None:
+            g2.join(3)
+            res2 = box.get('r2', 'hung')
     finally:
         mxmod.DNSResolver.query = saved
     if res == 'ok':
@@ -636,6 +667,13 @@ def run_mx(case, model):
     m = model.ask('mx route %d %s %s %d' % (1 if case['domain'] else 0, mxs, as_, case['attempts']))
     mismatch = None if m == res else {'op': 'mx route', 'impl': res, 'model': m}
     hits = []
+    if first is not None and first != 'temp':
+        hits.append(hit('c11.mx-resolver-error-not-transient', 'a resolver error was not reported as a transient failure', observed=first))
+    if res2 is not None:
+        # the second of two simultaneous attempts for the domain: same answer from the resolver, same kind of result
+        r2 = 'deliver' if res2 == 'ok' else res2
+        if r2 != res.split(':')[0] and mismatch is None:
+            mismatch = {'op': 'mx route (second of two simultaneous attempts)', 'impl': res2, 'model': m, 'first': res}
     unroutable = case['mx'] in ('nodata', 'notfound') and case['a'] in ('nodata', 'notfound')
     dnserr = case['mx'] == 'error' or (case['mx'] in ('nodata', 'notfound') and case['a'] == 'error')
     if res.startswith('other') or res == 'hung':
